@@ -214,17 +214,23 @@ def run(prop, tier):
     os.makedirs(os.path.join(ROOT, ".logs"), exist_ok=True)
     open(os.path.join(ROOT, ".logs", f"mir2smt-{prop}.smt2"), "w").write(script)
     answers = {s: parse_answers(res[s]["raw"], Q) for s in res}
+    reproduced_dir = [None]
     for i, qq in enumerate(Q):
         vs = {s: answers[s][i][0] for s in answers}
         verdict, note, rp = "pass", "", None
         if any(v != qq["expect"] for v in vs.values()):
             if qq["expect"] == "unsat" and all(v == "sat" for v in vs.values()):
                 model = answers["z3"][i][1] or answers["cvc5"][i][1] or {}
-                if qq.get("rust") and model:
+                if qq.get("rust") and model and reproduced_dir[0]:
+                    verdict, rp = "fail", reproduced_dir[0]
+                    note = f"counterexample {model}; not replayed (another counterexample of this run already reproduced natively)"
+                elif qq.get("rust") and model:
                     try:
                         body = qq["rust"].format(**{k: model.get(k, 0) for k in qq["vars"].split()})
                         rp, failed = replay_native(prop, qq["name"], header, body)
                         verdict = "fail" if failed else "nonrepro"
+                        if failed:
+                            reproduced_dir[0] = rp
                         note = f"counterexample {model}; native replay {'reproduced' if failed else 'did NOT reproduce'}"
                     except Exception as e:
                         verdict, note = "inconclusive", f"replay error {e}"
